@@ -103,9 +103,11 @@ struct PidSim
         double const RANGE = 4.0;
         auto centre = [&](int i) { return n == 1 ? 0.0 : -RANGE + 2 * RANGE * (double)i / (double)(n - 1); };
         double const sp = n == 1 ? RANGE : 2 * RANGE / (double)(n - 1);
+        std::vector<size_t> starts;
         for (unsigned i = 0; i < n; ++i)
         {
             double ci = centre((int)i), lo = ci - sp, hi = ci + sp;
+            starts.push_back(t.size());
             switch (family)
             {
             default:
@@ -135,9 +137,19 @@ struct PidSim
                 break;
             }
         }
-        me = (R *)SA.halloc(t.size() * sizeof(R)); for (size_t i = 0; i < t.size(); ++i) me[i] = (R)t[i];
-        mec = (R *)SA.halloc(t.size() * sizeof(R));
-        for (size_t i = 0; i < t.size(); ++i) mec[i] = (R)t[i]; // same family for the error change, scaled by 2 below where it is a position
+        // a table may also be shorter than the order and end with A_MF_NUL: the remaining sets then do not exist.  The block is
+        // exactly as long as the shortened table, so reading on behind the terminator is an out-of-bounds access
+        std::vector<double> te = t, tec = t;
+        if (n >= 2 && (tabseed >> 3) % 6 == 0)
+        {
+            unsigned const ke = 1 + (unsigned)((tabseed >> 6) % (n - 1)), kec = 1 + (unsigned)((tabseed >> 11) % n);
+            te.resize(starts[ke]); te.push_back(A_MF_NUL);
+            if (kec < n) { tec.resize(starts[kec]); tec.push_back(A_MF_NUL); }
+            c.st.add("probe.fuzzy_membership_table_ends_with_nul");
+        }
+        me = (R *)SA.halloc(te.size() * sizeof(R)); for (size_t i = 0; i < te.size(); ++i) me[i] = (R)te[i];
+        mec = (R *)SA.halloc(tec.size() * sizeof(R));
+        for (size_t i = 0; i < tec.size(); ++i) mec[i] = (R)tec[i]; // same family for the error change
         mkp = (R *)SA.halloc(n * n * sizeof(R)); mki = (R *)SA.halloc(n * n * sizeof(R)); mkd = (R *)SA.halloc(n * n * sizeof(R));
         for (unsigned i = 0; i < n * n; ++i) { mkp[i] = (R)tabval(i, 32); mki[i] = (R)std::fabs(tabval(1000 + i, 4)); /* effective ki = base + weighted mean must stay >= 0 */ mkd[i] = (R)tabval(2000 + i, 8); }
         // Ruspini-style partitions (tri, trap with quarter shoulders) activate at most two sets at once
@@ -308,6 +320,7 @@ struct PidSim
         for (unsigned i = 0; i < order; ++i)
         {
             int const type = (int)*tab++;
+            if (type == A_MF_NUL) break; // the table ends here: the remaining sets do not exist
             mu[i] = a_mf((unsigned)type, (R)x, tab);
             tab += mf_params(type);
         }
@@ -705,8 +718,12 @@ struct TfSim
         if ((long double)got != want) return c.fail(cls, "a_tf_iter", "%s: output %.17g, reference %.17Lg (exact integer regime)", what, got, want);
         return true;
     }
+    // `unit` scales every sample: 1, or the smallest subnormal of a_real - small integer multiples of it are exact in the
+    // subnormal range too, so the whole exact regime also runs where a flush-to-zero or a lost gradual underflow would show
+    double unit = 1.0;
     bool feed(double x, double x2)
     {
+        x *= unit; x2 *= unit;
         // one-step expectation from the delay lines as they are now
         long double w1 = nn ? (long double)num[0] * x : 0, sc = fabsl(w1);
         for (unsigned i = 1; i < nn; ++i) { long double t = (long double)num[i] * M.in[i - 1]; w1 += t; sc += fabsl(t); }
@@ -725,8 +742,8 @@ struct TfSim
         ++c.steps;
         xs.resize(nn, 0); xs2.resize(nn, 0); ys.resize(dn, 0); ys2.resize(dn, 0);
         long double const rm = ref_step(xs, ys, x), ry = ref_step(xs2, ys2, x2);
-        if (exact && (fabsl(rm) >= ldexpl(1, MANT - 8) || fabsl(ry) >= ldexpl(1, MANT - 8) || !std::isfinite((double)rm))) { exact = false; c.st.add("probe.tf_left_exact_range"); }
-        if (!(fabsl((long double)ym - w1) <= sc * ldexpl(1, -(MANT - 13)) || !std::isfinite((double)w1) || fabsl(w1) > (R_IS_DOUBLE ? 1e300L : 1e37L))) return c.fail("difference-equation-violated", "a_tf_iter", "output %.17g, sum over the delay lines gives %.17Lg", ym, w1);
+        if (exact && (fabsl(rm) >= ldexpl(1, MANT - 8) * unit || fabsl(ry) >= ldexpl(1, MANT - 8) * unit || !std::isfinite((double)rm))) { exact = false; c.st.add("probe.tf_left_exact_range"); }
+        if (!(fabsl((long double)ym - w1) <= sc * ldexpl(1, -(MANT - 13)) + 2 * (long double)(R_IS_DOUBLE ? DBL_TRUE_MIN : FLT_TRUE_MIN) || !std::isfinite((double)w1) || fabsl(w1) > (R_IS_DOUBLE ? 1e300L : 1e37L))) return c.fail("difference-equation-violated", "a_tf_iter", "output %.17g, sum over the delay lines gives %.17Lg", ym, w1);
         if (nn && M.in[0] != x) return c.fail("difference-equation-violated", "a_tf_iter", "newest input not at the front of the input delay line");
         if (dn && M.out[0] != ym) return c.fail("difference-equation-violated", "a_tf_iter", "newest output not at the front of the output delay line");
         if (!cmp(ym, rm, "difference-equation-violated", "main filter")) return false;
@@ -753,6 +770,8 @@ struct TfSim
     {
         SA.reset();
         nn = (unsigned)(mag64(p.knob("num_n", 1)) % 9); dn = (unsigned)(mag64(p.knob("den_n", 0)) % 9);
+        unit = p.knob("tiny", 0) ? (R_IS_DOUBLE ? DBL_TRUE_MIN : (double)FLT_TRUE_MIN) : 1.0;
+        if (unit != 1.0) c.st.add("probe.tf_subnormal_samples");
         la = (int)(p.knob("la", 1) % 5); lb = (int)(p.knob("lb", 1) % 5); delay = (unsigned)(mag64(p.knob("delay", 1)) % 6);
         uint64_t const cs = (uint64_t)p.knob("coefseed", 1);
         num = (R *)SA.halloc(nn * sizeof(R)); den = (R *)SA.halloc(dn * sizeof(R));
@@ -1022,6 +1041,7 @@ struct CtlEngine : Engine
             {
                 p.set("num_n", (int64_t)r.below(9)); p.set("den_n", (int64_t)r.below(9)); p.set("coefseed", (int64_t)r.below(1u << 30));
                 p.set("la", (int64_t)r.range(-4, 4)); p.set("lb", (int64_t)r.range(-4, 4)); p.set("delay", (int64_t)r.below(6));
+                p.set("tiny", r.chance(1, 8));
                 p.set("member_init", r.chance(1, 2)); p.set("null0", r.chance(1, 2));
             }
             else { p.set("regime", r.chance(1, 2)); p.set("alpha", (int64_t)r.below(1001)); if (!tf && r.chance(1, 8)) p.set("regime", 2); }
